@@ -148,14 +148,27 @@ def r09_2(ctx, rep):
     if loop is None:
         raise MechanismMissing(R, "loop over the table of sets (flow_connections.values()) not found")
     sv = loop.target.id
-    guard = [s for s in loop.body if isinstance(s, ast.If)]
+    # decided on the control-flow graph, so that `if s not in done: ...` and `if s in done: continue` are the same thing
+    from ..cfg import CFG, assume_truth
+    cfg = CFG(ast.Module(body=[loop], type_ignores=[]), R)
+    it = [x for x in cfg.nodes if x.kind == "iter" and x.ast is loop][0]
     once = False
     proc = None
-    for g in guard:
-        if isinstance(g.test, ast.Compare) and is_name(g.test.left, sv) and isinstance(g.test.ops[0], (ast.NotIn, ast.In)) and isinstance(g.test.comparators[0], ast.Name):
-            proc = g.test.comparators[0].id
-            body = g.body if isinstance(g.test.ops[0], ast.NotIn) else g.orelse
-            once = any(norm(s) == "%s.append(%s)" % (proc, sv) for s in ast.walk(ast.Module(body=body, type_ignores=[])) if isinstance(s, ast.Expr))
+    cands = {c.comparators[0].id for c in ast.walk(loop) if isinstance(c, ast.Compare) and len(c.ops) == 1 and isinstance(c.ops[0], (ast.In, ast.NotIn))
+             and is_name(c.left, sv) and isinstance(c.comparators[0], ast.Name)}
+    for P in sorted(cands):
+        expr = "%s in %s" % (sv, P)
+        seen_yes = [x for x in cfg.nodes if assume_truth(x, expr) is True]
+        seen_no = [x for x in cfg.nodes if assume_truth(x, expr) is False]
+        records = {x.id for x in cfg.stmts() if any(isinstance(c.func, ast.Attribute) and c.func.attr in ("append", "add") and is_name(c.func.value, P)
+                                                    and c.args and is_name(c.args[0], sv) for c in calls(x.ast))}
+        emits = {x.id for x in cfg.stmts() if "Equation(" in norm(x.ast)}
+        if not seen_yes or not seen_no or not records:
+            continue
+        recorded = all(cfg.path(a.id, it.id, avoid=records) is None for a in seen_no)
+        skipped = all(not (cfg.reachable(a.id, avoid={it.id}) & emits) for a in seen_yes)
+        if recorded and skipped:
+            once, proc = True, P
     rep.ob(R, SITE, "each set handled once", once,
            "every key of a set maps to the same set object, so the loop meets a set once per member: it must skip sets it has recorded and "
            "record each set it handles — otherwise the zero-sum equation is emitted once per member")
